@@ -591,3 +591,70 @@ def convert_contract(kind, isbin, sort):
 
 def all_convert():
     return [convert_contract(k, b, s) for k in ("Index", "IntervalIndex", "ndarray", "None") for b in (False, True) for s in (True, False)]
+
+
+def factorize_offset_contract():
+    """factorize_ with one grouper whose labels are 2-D and a single reduced axis: codes are offset per row (C08)"""
+    from ..pyvc.arr2 import Arr2
+
+    ghost = {}
+
+    def fs(ex, st, a, k, node):
+        from .finalize import IndexRec
+
+        by = a[0]
+        groups = sym_seq("found_groups")
+        Cf = z3.Function("codes2d", I, I, I)
+        codes = Arr2(by.rows, by.cols, lambda r, c: Cf(r, c), sort=I, name="codes")
+        r, c = fresh("r"), fresh("c")
+        st.assume(groups.length >= 1)
+        st.assume(z3.ForAll([r, c], z3.Implies(z3.And(in_range(r, 0, by.rows), in_range(c, 0, by.cols)), z3.And(Cf(r, c) >= -1, Cf(r, c) < groups.length)), patterns=[Cf(r, c)]))
+        ghost["codes"], ghost["groups"] = codes, groups
+        return (IndexRec(groups), codes)
+
+    def offset(ex, st, a, k, node):
+        """call-site use of the contract of offset_labels proved above"""
+        c = offset_contract()
+        env = {"labels": a[0], "ngroups": a[1]}
+        for r_ in c.requires(ex, env):
+            ex.oblige(st, r_, ex._name("pre.offset_labels", node), "requires of offset_labels: at least one row, column and group; codes within [-1, ngroups)")
+        Of = z3.Function(f"offset2d!{fresh('o').decl().name()}", I, I, I)
+        off = Arr2(a[0].rows, a[0].cols, lambda r, c: Of(r, c), sort=I, name="offset")
+        size = fresh("size")
+        for _, f in c.ensures(ex, {"__entry__": env}, (off, size)):
+            st.assume(f)
+        return (off, size)
+
+    def params(ex):
+        L = z3.Function("labels2d", I, I, I)
+        by = Arr2(z3.Int("rows"), z3.Int("cols"), lambda r, c: L(r, c), sort=I, name="by")
+        return {"by": (by,), "axes": (1,), "expected_groups": None, "reindex": False, "sort": True, "fastpath": False}
+
+    def requires(ex, env):
+        by = env["by"][0]
+        return [by.rows >= 1, by.cols >= 1]
+
+    def ensures(ex, env, res):
+        if "codes" not in ghost:
+            return [("one_factorization", z3.BoolVal(False))]
+        group_idx, found, grp_shape, ngroups, size, props = res
+        codes, ng = ghost["codes"], ghost["groups"].length
+        by = env["__entry__"]["by"][0]
+        r, c = fresh("r"), fresh("c")
+        inb = z3.And(in_range(r, 0, by.rows), in_range(c, 0, by.cols))
+        total = by.rows * ng
+        off, sentinel, nanmask = props
+        any_missing = z3.Exists([r, c], z3.And(inb, codes.at(r, c) == -1))
+        return [
+            ("number_of_groups", z3.And(ngroups == ng, z3.BoolVal(len(grp_shape) == 1), grp_shape[0] == ng)),
+            ("codes_offset_by_their_row", z3.ForAll([r, c], z3.Implies(z3.And(inb, codes.at(r, c) != -1), group_idx.at(r, c) == r * ng + codes.at(r, c)))),
+            ("missing_elements_go_to_the_sentinel_slot_past_all_rows", z3.ForAll([r, c], z3.Implies(z3.And(inb, codes.at(r, c) == -1), group_idx.at(r, c) == total))),
+            ("sentinel_is_rows_times_groups_and_offsetting_is_announced", z3.And(sentinel == total, z3.BoolVal(off is True))),
+            ("size_has_room_for_the_sentinel_iff_something_is_missing", z3.And(z3.Implies(any_missing, size == total + 1), z3.Implies(z3.Not(any_missing), size == total))),
+            ("nanmask_marks_exactly_the_missing_elements", z3.ForAll([r, c], z3.Implies(inb, nanmask.at(r, c) == (codes.at(r, c) == -1)))),
+        ]
+
+    c = Contract(qualname="factorize_", file="flox/core.py", prefix="C08.factorize_.offset", params=params, requires=requires, ensures=ensures, serves=("C08", "C05"),
+                 assumed=("_factorize_single returns codes shaped like the labels, in [-1, number of groups found), at least one group found", "ndarray.reshape to the own shape is the identity"))
+    callees = {"_factorize_single": fs, "offset_labels": offset, "FactorProps": lambda ex, st, a, k, n: tuple(a)}
+    return c, callees
